@@ -415,12 +415,15 @@ def fam_exhaustive_par(tier, tag, variants=("plain", "backing", "special"), parn
     imgs = _exh_images()
     rd = {"op": "read", "gb": 0, "n": 8}
     rng = random.Random(seed * 7 + 5)
-    for pn in ([2] if tier == "quick" else [2, 3]) if parn is None else [parn]:
+    for pn in [2, 3] if parn is None else [parn]:
         if pn not in _EXHP:
             _EXHP[pn] = Q.tlc_enumerate("GenOps.tla", cfg="GenOpsPar.cfg", env={"DEPTH": "0", "PARN": str(pn)}, workers=1, timeout=1800)[0]
         hs = _EXHP[pn]
         if sample and len(hs) > sample:
             hs = rng.sample(hs, sample)
+        elif tier == "quick" and pn == 3 and parn is None:
+            # quick tier: all pairs, a seeded sample of the triples
+            hs = rng.sample(hs, 500)
         for v in variants:
             for h in hs:
                 steps = [_exh_step(o) for o in h["pre"]] + [{"op": "par", "ops": [_exh_step(o) for o in h["par"]]}]
@@ -1298,18 +1301,18 @@ def check_C17(chk):
 
 def check_C07(chk):
     """progress: no deadlock, livelock or spurious failure"""
-    n = 200 if chk.tier == "quick" else 4000
+    n = 200 if chk.tier == "quick" else 2000
     scens = fam_conc(chk.tier, chk.seed, "c07", n, groups=3, maxops=5)
     scens += fam_conc(chk.tier, chk.seed, "c07b", n // 4, backing=True, groups=2, maxops=4)
     # schedule sweep: each scenario is also run under further schedule seeds inside the harness (no trace, no TLC);
     # the first run that hangs or panics replaces the base run and is then judged like any other
     for s_ in scens:
-        s_["sched_sweep"] = 12 if chk.tier == "quick" else 100
-    gr = fam_growth(chk.tier, chk.seed, "c07g", 48 if chk.tier == "quick" else 400, conc=True)
+        s_["sched_sweep"] = 12 if chk.tier == "quick" else 40
+    gr = fam_growth(chk.tier, chk.seed, "c07g", 48 if chk.tier == "quick" else 200, conc=True)
     for s_ in gr:
-        s_["sched_sweep"] = 40 if chk.tier == "quick" else 200
+        s_["sched_sweep"] = 40 if chk.tier == "quick" else 100
     scens += gr
-    scens += fam_exhaustive_par(chk.tier, "c07p", seed=chk.seed, sweep=3 if chk.tier == "quick" else 10)
+    scens += fam_exhaustive_par(chk.tier, "c07p", seed=chk.seed, sweep=3 if chk.tier == "quick" else 5)
     scens += fam_regress()
     res, st = Q.run_batch(scens, chk.wd, known=chk.known_tags(), par=14)
     chk.consume(res, st, props=("C07", "PANIC"))
